@@ -30,6 +30,7 @@ TraceInit ==
 SpecStep(e) ==
   CASE e.op = "AddConn" -> AddConn(e.u)
     [] e.op = "RemoveConn" -> RemoveConn(e.u)
+    [] e.op = "CloseSess" -> CloseSess(e.u)
     [] e.op = "Select" -> Select(e.e, e.allow)
     [] OTHER -> TRUE
 
@@ -78,6 +79,10 @@ TraceNext ==
                     ELSE IF e.op = "AddConn" THEN added \cup {e.u}
                     ELSE IF quiesce THEN added \cup {e.calls[i].u : i \in {j \in DOMAIN e.calls : e.calls[j].kind = "add"}}
                     ELSE added
+        /\ closed' = IF reset \/ quiesce THEN {}
+                     ELSE IF e.op = "CloseSess" THEN closed \cup {e.u}
+                     ELSE IF e.op = "RemoveConn" THEN closed \ {e.u}
+                     ELSE closed
         /\ last' = IF e.op = "Select" THEN e.res ELSE ""
         /\ recent' = IF reset \/ quiesce THEN [x \in Ep |-> <<>>]
                      ELSE IF e.op \in {"AddConn", "RemoveConn"}
